@@ -744,7 +744,8 @@ def interval_overlap(a: int, b: int, x: int, y: int) -> int:
     elif a >= x and b <= y:
         return b - a
     else:
-        assert False
+        # [x, y] lies strictly inside [a, b]
+        return y - x
 
 
 def width_aware_slice(s: str, start: int, end: int, replacement_char: str = " ") -> str:
